@@ -28,6 +28,10 @@ CHECKS = {
    technique="stateful model-based property testing (rapidcheck histories, fork-isolated, reference model of live blocks) + exhaustive enumeration of short histories",
    text="Random alloc/free/resize/recode/link/root/gc histories (<=200 steps quick, up to 1e5 thorough) and all histories of length <=5 (thorough <=6) over a 10-letter alphabet run on the real allocator in both build flavours; after every step alignment, size, disjointness, byte patterns, code, survival of reachable blocks and stoAudit are checked.",
    note="Trusted: the C++ model; survival asserted only for blocks reachable from static roots the marker scans.", design="4 C10"),
+ "C17": dict(level="fault_enumeration", engine="fault-enumeration",
+   technique="exhaustive enumeration of truncation points plus seeded single-byte substitutions of valid .ao/.fm/.al files, validity-predicate oracle over five consumers",
+   text="Every truncation length of the object file (each point at which a writer could have died) and substitutions at every header/section-table offset and seeded body offsets are fed to five consumers; each must reproduce the intact outputs byte for byte or refuse with a diagnostic and non-zero status, never fault, hang or silently differ.",
+   note="Substitutions inside section contents are a listed known finding (no checksum in the format); truncations and header damage are strict.", design="4 C17"),
  "C19": dict(level="exploration", engine="exhaustive-loop+hypothesis",
    technique="exhaustive enumeration of all 2^32 single-precision patterns and boundary/random double patterns through round-trip identities; generated-literal differential through the compiler",
    text="All 2^32 single patterns and 270k+ boundary double patterns (plus seeded random ones) survive the portable encoding and dissemble/assemble bit-exactly; compiler-level layers compare folded, interpreted, compiled and reloaded constants.",
@@ -78,6 +82,7 @@ def main():
             {"name": "libfuzzer+product", "path": "harness/bigint_fuzz.cc", "serves_properties": ["C11"], "kind_free_text": "libFuzzer target with GMP oracle; deterministic boundary product driver"},
             {"name": "rapidcheck-stateful", "path": "harness/containers_rc.cc", "serves_properties": ["C10", "C20"], "kind_free_text": "rapidcheck-generated operation histories against reference models"},
             {"name": "exhaustive-loop+hypothesis", "path": "harness/xfloat_check.cc", "serves_properties": ["C19"], "kind_free_text": "exhaustive bit-pattern loops; Hypothesis-generated literals through the compiler"},
+            {"name": "fault-enumeration", "path": "vt/props/c17.py", "serves_properties": ["C17", "C18"], "kind_free_text": "enumerated damage / write-fault points applied to real compiler runs"},
             {"name": "hypothesis-subprocess", "path": "vt/", "serves_properties": ["C01", "C02", "C03", "C07"], "kind_free_text": "Hypothesis-generated programs/inputs driving the compiler under test as a subprocess"},
         ],
         "checks": checks,
